@@ -42,6 +42,11 @@ def register(R):
     return VBool(a[0].f_notify)
 
   @R.spec
+  def lock_free(it, a, k):
+    '''this thread does not hold the lock (hold count 0 on this path)'''
+    return VBool(a[0].held == 0)
+
+  @R.spec
   def notified_all(it, a, k):
     return VBool(a[0].f_notify_all)
 
@@ -112,13 +117,17 @@ def register(R):
       bounded='bounded_queue_sequences'))
   R.add(Contract(
       f'{ITER}::IteratorQueue._stop_enqueue', PROPS, types=dict(t, values='seq[obj]'),
-      modifies=['self._enqueue_stop', 'self._returned', 'events:self._dequeue_lock'],
-      requires=INV, ensures=INV + [
+      modifies=['self._enqueue_stop', 'self._returned', 'events:self._dequeue_lock', 'events:self._enqueue_lock'],
+      # the state lock must not be held by the caller: the hand-off inside releases it ONE level to notify the
+      # consumers, a re-entrant outer hold would keep it locked while waiting for the consumers' lock (lock-order deadlock)
+      requires=INV + ['lock_free(self._states_lock)'], ensures=INV + [
           'self._enqueue_stop == min(old(self._enqueue_stop) + 1, self._enqueue_start)',
           # every producer's return values are recorded, in order, none dropped
           'extended(self._returned, old(self._returned), values)',
           # the last producer to stop wakes up every waiting consumer
-          'implies(enq_done(self), notified_all(self._dequeue_lock))'],
+          'implies(enq_done(self), notified_all(self._dequeue_lock))',
+          # and a FAILED stream also wakes the other producers (blocked on a full queue nobody will drain any more)
+          'implies(enq_done(self) and self._exception is not None, notified_all(self._enqueue_lock))'],
       # publication: whenever the state lock is released after the counter update (in particular around the
       # notification that announces end-of-stream) the producer's return values are already recorded
       at_release={'self._states_lock': ['extended(self._returned, old(self._returned), values)']},
@@ -243,7 +252,11 @@ def register(R):
       ensures=INV + ['len(puts) == iterator.pos - pos0',
                      'forall(lambda j: puts[j] is iterator.src[pos0 + j], 0, len(puts))',
                      "ncalls('_stop_enqueue') == 1 or (ncalls('_stop_enqueue') == 0 and enq_done(self))",
-                     "implies(ncalls('_stop_enqueue') == 1, iterator.pos == len(iterator.src))"],
+                     "implies(ncalls('_stop_enqueue') == 1, iterator.pos == len(iterator.src))",
+                     # ... and hands over exactly the iterator's return value, whatever it is (0, {}, an array ...)
+                     "implies(ncalls('_stop_enqueue') == 1, len(last_arg('_stop_enqueue', 'values')) == 1)",
+                     "implies(ncalls('_stop_enqueue') == 1, implies(len(last_arg('_stop_enqueue', 'values')) == 1,"
+                     " last_arg('_stop_enqueue', 'values')[0] is iterator.ret))"],
       raises_ensures={'TimeoutError': ['True']},
       loops={0: dict(invariant=INV + ['pos0 <= iterator.pos and iterator.pos <= len(iterator.src)',
                                       'len(puts) == iterator.pos - pos0',
@@ -265,7 +278,9 @@ def register(R):
                                     'self._exception is raised',
                                     # ... and it is announced: a failed producer ends the stream for everybody (enq_done holds
                                     # as soon as a failure is recorded), so every waiting consumer is woken when it signs off
-                                    'notified_all(self._dequeue_lock)'],
+                                    'notified_all(self._dequeue_lock)',
+                                    # the other producers are woken too (D27: one blocked on a full queue stayed blocked)
+                                    'notified_all(self._enqueue_lock)'],
                       'TimeoutError': ['True']},
       loops={0: dict(invariant=INV + ["ncalls('_stop_enqueue') == 0", "ncalls('_start_enqueue') == 1", 'not iterator.dead'],
                      havoc_ghost=['puts'])},
@@ -333,6 +348,8 @@ def register(R):
         ('bounded_queue_sequences', 'single-threaded operation sequences on IteratorQueue vs a reference queue (capacities 0-2)'),
         ('bounded_queue_threads', 'producers x consumers x capacities with failures/stops under timeouts: exactly-once, order, terminal signal (sampled schedules)'),
     ]
+    if p_ == 'C05':
+      R.bounded_checks[p_] = R.bounded_checks[p_] + [('bounded_stop_is_final', 'a producer that only starts after maybe_stop() must not enqueue anything')]
     R.trusted[p_] = ['A2 queue.Queue/SimpleQueue FIFO with atomic get_nowait/put_nowait; threading.Condition/RLock semantics',
                      'A4 sequential semantics: each operation verified as if it ran alone with the needed lock held; NO claim about interleavings, deadlock or lost wake-ups',
                      'A5 Condition.wait may return either way', 'A7 pyvc engine, z3, cvc5']
